@@ -75,8 +75,4 @@ def replay(rp):
 
 
 def run(tier, seed):
-    t0 = time.time()
-    res = runner.Result()
-    for d in runner.run_pool(task, seed, plan(tier, seed)):
-        res.merge(d)
-    return runner.finish(ID, tier, seed, LEVEL, res, RULE, ASSUME, t0, replay)
+    return f1.standard_run(ID, LEVEL, RULE, ASSUME, plan(tier, seed), task, replay, tier, seed)
